@@ -36,13 +36,18 @@ ASSUMPTIONS = [
     "text printed by tests (UT_PRINT) is outside the property's quantifier; it is written raw BETWEEN messages (never inside one); the "
     "whole-stream decoding theorems assume it contains no '#' (a test can print a complete service message of its own: observation "
     "printed_text_can_inject_a_message); the -vv progress trace and the summary are modelled and proved free of '#'",
-    "failures are reported by the running test about itself (TestFailure built from the current shell), as all check macros do",
+    "failures are reported by the running test about itself (TestFailure built from the current shell), as all check macros do, or by a "
+    "plugin's post-test action about the test it was called for: the scripted plugin and the REAL MockSupportPlugin (installed in every run; "
+    "its reporter takes the test from the plugin's own argument because the current test has already been put back - Model/TeamCityMock.lean); "
+    "of the mock framework's message text only one unfulfilled parameterless expectation is modelled, and the oracle demands of it only that "
+    "the function name comes back intact",
     "runs modelled byte for byte are those without -p and -ri (runInSeperateProcess_ and runIgnored_ false in the loop interpreter); "
     "with -p the theorems are about any interleaving of the child's and the parent's messages, under the hypothesis that the parent "
     "leaves the wait loop only when the child is gone (separate_process_late_failure_breaks_property shows it cannot be dropped)",
 ]
 RULE = ("scripted registries: 1-5 group runs, pass / fail through every TestFailure constructor (file+line+message, message only, file+line only, FailFailure; from the body "
-        "and from a plugin's post-test action; inside the test, in a helper above it, in another file) / ignored tests, optional name filter, repeated runs on one output object (-r2/-r3; single-group registries and registries whose first and last group coincide frequent), names-paths-messages over printable ASCII with ' | [ ] CR LF frequent and some "
+        "and from a plugin's post-test action; the REAL MockSupportPlugin is installed in every run and in a third of the registries half of the tests leave a "
+        "mock expectation unfulfilled and unchecked, so the failure is found by the plugin's post-test action, after the current test has been put back; inside the test, in a helper above it, in another file) / ignored tests, optional name filter, repeated runs on one output object (-r2/-r3; single-group registries and registries whose first and last group coincide frequent), names-paths-messages over printable ASCII with ' | [ ] CR LF frequent and some "
         "longer than 100 bytes; 12 % of the direct runs through a CompositeTestOutput (TeamCity as first or second output); durations with 10-18 digits; a fifth of the runs through the real command-line runner on a real pipe, "
         "nearly half of those with -p, 4 % of the -p runs with a test process that stops itself (SIGSTOP), is continued and goes on, followed by a slow test; non-trivial = the stream contains an escaped byte or a failure or an ignored test; distinct = distinct op sequences")
 
@@ -52,6 +57,15 @@ def gen_case(rng, n, malformed=False, real_io=False, stop_rate=0.04):
                          with_prints=rng.random() < 0.3, print_avoid="#", specials=G.SPECIAL_TC + "&<\"")
     # the file of a print line is printed raw as well
     ops = [_clean_print(l) for l in ops]
+    # the real MockSupportPlugin is installed in every run; about a third of the registries have tests that leave a mock
+    # expectation unfulfilled without checking it themselves (found only by the plugin's post-test action)
+    if rng.random() < 0.35:
+        out = []
+        for l in ops:
+            out.append(l)
+            if l.startswith("test ") and rng.random() < 0.5:
+                out.append("mockleft %s" % G.hx(G.text(rng, 10, G.SPECIAL_TC + "&<\"", allow_empty=rng.random() < 0.1)))
+        ops = out
     if rng.random() < 0.3:
         # -r<n>: one output object, n runs; the writer still remembers the last group of the previous run when the next
         # starts (single-group registries and registries whose first and last group coincide are frequent)
@@ -95,7 +109,8 @@ def gen_case(rng, n, malformed=False, real_io=False, stop_rate=0.04):
         ops.append("run")
     if malformed:
         for _ in range(rng.randint(0, 3)):
-            ops.insert(rng.randint(0, len(ops)), rng.choice(["tick", "fail zz 1 00", "test 41 42", "checks x", "print - 1", "bogus 1 2"]))
+            ops.insert(rng.randint(0, len(ops)), rng.choice(["tick", "fail zz 1 00", "test 41 42", "checks x", "print - 1", "bogus 1 2",
+                                                             "mockleft", "mockleft zz", "mockleft 66 1", "mockleft 66"]))
     return ops
 
 
@@ -190,6 +205,16 @@ def observe(r, rep):
         runs = G.group_runs(reg["tests"])
         if runs and runs[0][0] == runs[-1][0]:
             rep.count("branch.repeated_runs_first_group_equals_last")
+    mocks = mock_tests(r.ops)
+    if mocks:
+        rep.count("branch.mock_expectation_left")
+        for i, t in enumerate(reg["tests"]):
+            t["mock"] = mocks.get(i)
+            if t["mock"] is not None and G.should_run(reg, t):
+                if mock_fires(t):
+                    rep.count("ctor.message_only_from_mock_plugin_post_action")
+                elif not t["ignored"]:
+                    rep.count("branch.mock_expectation_left_but_test_failed_itself")
     if reg["filter"] is not None:
         rep.count("branch.name_filter")
         if any(not G.should_run(reg, t) for t in reg["tests"]):
@@ -225,6 +250,32 @@ def tc_decode(v):
     return bytes(out)
 
 
+def mock_tests(ops):
+    """index (definition order) -> function name of the tests marked `mockleft`, up to the first run; the latest line wins"""
+    out, n = {}, 0
+    for l in ops:
+        w = l.split()
+        if not w:
+            continue
+        if w[0] == "run":
+            break
+        if w[0] == "test" and len(w) == 6:
+            n += 1
+        elif w[0] == "mockleft" and len(w) == 2 and n:
+            try:
+                out[n - 1] = G.unhx(w[1])
+            except ValueError:
+                pass
+    return out
+
+
+def mock_fires(t):
+    """the mock plugin's post-test action reports the expectation a test left unfulfilled only when the test runs and its
+    body reported no failure"""
+    return (not t["ignored"]) and t.get("mock") is not None and not any(
+        a[0] in ("fail", "failx", "failmsg", "failloc") for a in G.executed(t))
+
+
 def stop_tests(ops):
     """indices (in definition order) of the tests marked `childstop`, up to the first run"""
     out, n = set(), 0
@@ -246,8 +297,10 @@ def py_judge(ops, stream):
     reg = G.read_registry(ops)
     separate = "separate" in ops
     stops = stop_tests(ops)
+    mocks = mock_tests(ops)
     for i, t in enumerate(reg["tests"]):
         t["stop"] = i in stops
+        t["mock"] = mocks.get(i)
     if any(t["group"] == b"" for t in reg["tests"]):
         return None
     if any(a[0] == "print" and (b"#" in a[1] or b"#" in a[3]) for t in reg["tests"] for a in t["acts"]):
@@ -262,6 +315,10 @@ def py_judge(ops, stream):
             if t["ignored"]:
                 want.append(("testIgnored", t["name"]))
             fs = G.failures(t)
+            if mock_fires(t):
+                # found by the mock plugin's post-test action (the last one): located at the test; of the details (composed
+                # by the mock framework) only the function name is an original of this run
+                fs = fs + [(t["file"], t["line"], ("contains", t["mock"]))]
             if separate and fs:
                 fs = fs + [(t["file"], t["line"], b"Failed in separate process")]
             if separate and t["stop"] and not t["ignored"]:
@@ -300,7 +357,10 @@ def py_judge(ops, stream):
             return "message %s name=%r, expected %s name=%r" % (name, d.get("name"), w[0], w[1])
         if name == "testFailed":
             _, _, ffile, fline, msg, t = w
-            if d.get("details") != msg:
+            if isinstance(msg, tuple):
+                if msg[1] not in d.get("details", b""):
+                    return "details decode to %r, which does not contain the function name %r" % (d.get("details"), msg[1])
+            elif d.get("details") != msg:
                 return "details decode to %r, original %r" % (d.get("details"), msg)
             loc = ffile + b":" + str(fline).encode()
             if not d.get("message", b"").endswith(loc):
